@@ -200,6 +200,7 @@ Section Printer.
         match get "enum" v with
         | VEnum ec n =>
             if String.eqb n "MOD" && negb (d_in d mod_dialects) then Err NotSupport
+            else if String.eqb n "LOGICAL_INVERSION" && d_eqb d D_HIVE then Err NotSupport
             else match enum_word ec n with Some w => Ok w | None => Err (Crash 2) end
         | _ => Err (Crash 2)
         end
